@@ -356,6 +356,21 @@ Section Merge.
     split; [exact N|]. rewrite <- (wf_for _ N). exact (wf_find _ _ _ (s_twf _ _ H) Fd).
   Qed.
 
+  Lemma sim_end_own J S : sim J S -> sim (end_stream J i) (end_stream S i).
+  Proof.
+    intros H. unfold end_stream. rewrite (sim_find _ _ H).
+    destruct (find_track i (tracks J)) as [tr|] eqn:Fd; [|exact H].
+    destruct (sim_own_track _ _ _ H Fd) as [Hid Hok].
+    apply sim_upd_own; [exact H|exact Hid|]. apply andb_true_iff in Hok as [_ Ho]. apply andb_true_iff. split; [reflexivity|exact Ho].
+  Qed.
+  Lemma sim_end_for J S id : sim J S -> id <> i -> sim (end_stream J id) S.
+  Proof.
+    intros H Hne. unfold end_stream.
+    destruct (find_track id (tracks J)) as [tr|] eqn:Fd; [|exact H].
+    destruct (sim_for_track _ _ _ _ H Hne Fd) as [Hid Hok].
+    apply sim_upd_for; [exact H|exact Hid|]. apply andb_true_iff in Hok as [_ Ho]. apply andb_true_iff. split; [reflexivity|exact Ho].
+  Qed.
+
   Lemma finish_own cfg J S st : sim J S -> sim (finish_track cfg J i st) (finish_track cfg S i st).
   Proof.
     intros H. unfold finish_track. rewrite (sim_find _ _ H).
@@ -402,8 +417,9 @@ Section Merge.
     - refine (conj _ (conj eq_refl (conj eq_refl K2))). apply finish_own. exact U.
     - refine (conj _ (conj eq_refl (conj eq_refl K2))). apply finish_own. exact U.
     - destruct (ignore_exc cfg); refine (conj _ (conj eq_refl (conj eq_refl K2))); [apply sim_remove_own|]; exact U.
-    - specialize (Hcb cb). destruct (nth cb (cbs cfg) (CbNone, [])) as [rk ops]. simpl in Hcb. subst ops. simpl.
-      refine (conj _ (conj eq_refl (conj eq_refl K2))). apply finish_own. exact U.
+    - specialize (Hcb cb). destruct (nth cb (cbs cfg) (CbNone, [])) as [rk ops]. simpl in Hcb. subst ops.
+      cbn [exec_cb_ops cb_completes].
+      refine (conj _ (conj eq_refl (conj eq_refl K2))). apply finish_own. destruct rk; [exact U|exact U|apply sim_end_own; exact U].
     - refine (conj U (conj eq_refl (conj eq_refl K2))).
   Qed.
 
@@ -425,8 +441,9 @@ Section Merge.
     - split; [|exact K2]. apply finish_for; assumption.
     - split; [|exact K2]. apply finish_for; assumption.
     - destruct (ignore_exc cfg); (split; [|exact K2]); [apply sim_remove_for|]; assumption.
-    - specialize (Hcb cb). destruct (nth cb (cbs cfg) (CbNone, [])) as [rk ops]. simpl in Hcb. subst ops. simpl.
-      split; [|exact K2]. apply finish_for; assumption.
+    - specialize (Hcb cb). destruct (nth cb (cbs cfg) (CbNone, [])) as [rk ops]. simpl in Hcb. subst ops.
+      cbn [exec_cb_ops cb_completes].
+      split; [|exact K2]. apply finish_for; [|exact Hne]. destruct rk; [exact U|exact U|apply sim_end_for; assumption].
     - split; assumption.
   Qed.
 
@@ -792,8 +809,9 @@ Section Merge.
     - rewrite finish_next. reflexivity.
     - rewrite finish_next. reflexivity.
     - destruct (ignore_exc cfg); simpl; [rewrite remove_next|]; reflexivity.
-    - specialize (Hcb cb). destruct (nth cb (cbs cfg) (CbNone, [])) as [rk ops]. simpl in Hcb. subst ops. simpl.
-      rewrite finish_next. reflexivity.
+    - specialize (Hcb cb). destruct (nth cb (cbs cfg) (CbNone, [])) as [rk ops]. simpl in Hcb. subst ops.
+      cbn [exec_cb_ops cb_completes fst]. rewrite finish_next. destruct rk; try reflexivity.
+      unfold end_stream. destruct (find_track id _); reflexivity.
     - reflexivity.
   Qed.
   Lemma phase_tracks_next ids : forall tl calls, next_id (fst (fst (phase_tracks cfg tl ids calls))) = next_id tl.
